@@ -974,6 +974,28 @@ pub fn rule_violation(p: &[Rec], registered: &[String]) -> Option<String> {
                 return Some("integer minimum above maximum".into());
             }
         }
+        // a declared float range that is not ordered (inverted, or a NaN end) and a scale that is not a finite
+        // non-zero number describe no values at all: nothing stored under them can be interpreted
+        match &r.ty {
+            RType::Single { min, max } => {
+                let (a, b) = (min.map(|m| m.0 as f64), max.map(|m| m.0 as f64));
+                if a.map(|v| v.is_nan()).unwrap_or(false) || b.map(|v| v.is_nan()).unwrap_or(false) || matches!((a, b), (Some(a), Some(b)) if a > b) {
+                    return Some("float range not ordered".into());
+                }
+            }
+            RType::Double { min, max } => {
+                let (a, b) = (min.map(|m| m.0), max.map(|m| m.0));
+                if a.map(|v| v.is_nan()).unwrap_or(false) || b.map(|v| v.is_nan()).unwrap_or(false) || matches!((a, b), (Some(a), Some(b)) if a > b) {
+                    return Some("float range not ordered".into());
+                }
+            }
+            RType::Scaled { scale, offset, .. } => {
+                if !scale.0.is_finite() || scale.0 == 0.0 || !offset.0.is_finite() {
+                    return Some("scale / offset not usable".into());
+                }
+            }
+            _ => {}
+        }
     }
     None
 }
